@@ -10,12 +10,13 @@
 (*   end    {o, why}                the attempt failed (error returned), or *)
 (*                                  the user's Close/Reset returned, or the *)
 (*                                  attempt can no longer complete (its     *)
-(*                                  listener's Close returned)              *)
+(*                                  listener's Close returned, its          *)
+(*                                  connection is gone)                     *)
 (*   raw_open {o} / raw_close {o}   a raw network connection was handed to  *)
 (*                                  the code / the code called Close on it  *)
 (*   audit  {rm, final, usage, gor} Stat() of resource manager rm read at a *)
 (*                                  quiescent point (+ goroutine census)    *)
-(*   swarm_closed {rm, conns, listeners}   Swarm.Close returned             *)
+(*   swarm_closed {rm, conns, listeners}   Swarm/Host.Close returned        *)
 (* The statement's clauses are the guards of Audit and SwarmClosed: usage  *)
 (* is bounded by the live and pending holders (so it returns to its former *)
 (* value when an attempt ends), ended attempts have had their raw          *)
@@ -23,56 +24,80 @@
 (* Close everything is zero and gone.  The per-exit oracle ("what must     *)
 (* have been released when this exit is taken") is C04_Lifecycle's         *)
 (* invariant Released: an ended object holds nothing.                      *)
-(* Fully logged: validation is linear.                                     *)
+(*                                                                         *)
+(* Many ledgers are validated in one pass: a line whose guard is false     *)
+(* REJECTS its ledger (recorded in `bad`, the rest of that ledger is       *)
+(* skipped) and validation continues with the next ledger.  A ledger is a  *)
+(* behaviour of the specification proper iff it is never rejected.         *)
+(* Fully logged and deterministic: validation is linear.                   *)
 (***************************************************************************)
 EXTENDS Naturals, Sequences, FiniteSets, TLC, Json
 
 TraceLog == ndJsonDeserialize("trace.ndjson")
 
 VARIABLES l,
-  obj,     \* object id -> [kind, dir, rm, fd, st] with st in pending | live | ended
-  raw,     \* object id -> open | closed   (raw connections handed to the code)
-  closedRM \* resource managers whose swarm has been closed
+  obj,      \* object id -> [kind, dir, rm, fd, st] with st in pending | live | ended
+  raw,      \* object id -> open | closed   (raw connections handed to the code)
+  closedRM, \* resource managers whose swarm has been closed
+  tname,    \* name of the ledger being consumed
+  skip,     \* the current ledger has been rejected: skip to the next reset
+  bad       \* rejected ledgers: <<[trace, at, ev]>>
 
-vars == <<l, obj, raw, closedRM>>
+vars == <<l, obj, raw, closedRM, tname, skip, bad>>
 
 Cur == TraceLog[l]
-IsEvent(name) == l <= Len(TraceLog) /\ Cur.ev = name /\ l' = l + 1
+More == l <= Len(TraceLog)
+Is(name) == More /\ ~skip /\ Cur.ev = name
 
 \* events that carry no obligation (what was injected, progress markers)
-Info == {"fault", "pingpong", "lclose_call", "lclose_ret", "conn_close_race", "raw_returned", "note",
-         "refused", "handler", "stream_reset"}
+Info == {"fault", "pingpong", "lclose_call", "lclose_ret", "conn_close_race", "raw_returned", "note", "refused"}
+Known == Info \cup {"reset", "begin", "live", "end", "raw_open", "raw_close", "audit", "swarm_closed"}
 
-TraceInit == l = 1 /\ obj = <<>> /\ raw = <<>> /\ closedRM = {} /\ TLCSet(1, 1)
+TraceInit == /\ l = 1 /\ obj = <<>> /\ raw = <<>> /\ closedRM = {} /\ tname = "" /\ skip = FALSE /\ bad = <<>>
+             /\ TLCSet(1, 1) /\ TLCSet(2, <<>>)
 
-TrReset == /\ IsEvent("reset")
-           /\ obj' = <<>> /\ raw' = <<>> /\ closedRM' = {}
+Keep == UNCHANGED <<obj, raw, closedRM>>
+\* consume the line: either the guard holds and the ledger state is updated, or the ledger is rejected
+Accept == l' = l + 1 /\ UNCHANGED <<tname, skip, bad>>
+Reject == /\ l' = l + 1 /\ skip' = TRUE /\ UNCHANGED tname /\ Keep
+          /\ bad' = Append(bad, [trace |-> tname, at |-> l, ev |-> Cur.ev])
 
-TrInfo == /\ l <= Len(TraceLog) /\ Cur.ev \in Info /\ l' = l + 1
-          /\ UNCHANGED <<obj, raw, closedRM>>
+TrReset == /\ More /\ Cur.ev = "reset" /\ l' = l + 1
+           /\ obj' = <<>> /\ raw' = <<>> /\ closedRM' = {} /\ tname' = Cur.trace /\ skip' = FALSE
+           /\ UNCHANGED bad
+TrSkip == /\ More /\ skip /\ Cur.ev # "reset" /\ l' = l + 1 /\ UNCHANGED <<tname, skip, bad>> /\ Keep
+TrInfo == /\ More /\ ~skip /\ Cur.ev \in Info /\ Accept /\ Keep
+\* an event the specification does not know (bad_return, bad_accept, deadlock, ...) is never allowed
+TrUnknown == /\ More /\ ~skip /\ Cur.ev \notin Known /\ Reject
 
 Upd(f, k, v) == [x \in DOMAIN f \cup {k} |-> IF x = k THEN v ELSE f[x]]
 
-TrBegin == /\ IsEvent("begin") /\ Cur.o \notin DOMAIN obj
-           /\ Cur.rm \notin closedRM
-           /\ obj' = Upd(obj, Cur.o, [kind |-> Cur.kind, dir |-> Cur.dir, rm |-> Cur.rm, fd |-> Cur.fd, st |-> "pending"])
-           /\ UNCHANGED <<raw, closedRM>>
+TrBegin == /\ Is("begin")
+           /\ IF Cur.o \notin DOMAIN obj
+                THEN /\ obj' = Upd(obj, Cur.o, [kind |-> Cur.kind, dir |-> Cur.dir, rm |-> Cur.rm, fd |-> Cur.fd, st |-> "pending"])
+                     /\ UNCHANGED <<raw, closedRM>> /\ Accept
+                ELSE Reject
 
-\* the object is handed to the user exactly once, and never after its attempt was reported as failed
-TrLive == /\ IsEvent("live") /\ Cur.o \in DOMAIN obj /\ obj[Cur.o].st = "pending"
-          /\ obj' = [obj EXCEPT ![Cur.o].st = "live"]
-          /\ UNCHANGED <<raw, closedRM>>
+\* the object is handed to the user exactly once, never after its attempt was reported as failed, and
+\* never by a swarm whose Close has returned
+TrLive == /\ Is("live")
+          /\ IF Cur.o \in DOMAIN obj /\ obj[Cur.o].st = "pending" /\ obj[Cur.o].rm \notin closedRM
+               THEN obj' = [obj EXCEPT ![Cur.o].st = "live"] /\ UNCHANGED <<raw, closedRM>> /\ Accept
+               ELSE Reject
 
-TrEnd == /\ IsEvent("end") /\ Cur.o \in DOMAIN obj /\ obj[Cur.o].st \in {"pending", "live"}
-         /\ obj' = [obj EXCEPT ![Cur.o].st = "ended"]
-         /\ UNCHANGED <<raw, closedRM>>
+TrEnd == /\ Is("end")
+         /\ IF Cur.o \in DOMAIN obj /\ obj[Cur.o].st \in {"pending", "live"}
+              THEN obj' = [obj EXCEPT ![Cur.o].st = "ended"] /\ UNCHANGED <<raw, closedRM>> /\ Accept
+              ELSE Reject
 
-TrRawOpen == /\ IsEvent("raw_open") /\ Cur.o \notin DOMAIN raw
-             /\ raw' = Upd(raw, Cur.o, "open")
-             /\ UNCHANGED <<obj, closedRM>>
-TrRawClose == /\ IsEvent("raw_close") /\ Cur.o \in DOMAIN raw
-              /\ raw' = [raw EXCEPT ![Cur.o] = "closed"]
-              /\ UNCHANGED <<obj, closedRM>>
+TrRawOpen == /\ Is("raw_open")
+             /\ IF Cur.o \notin DOMAIN raw
+                  THEN raw' = Upd(raw, Cur.o, "open") /\ UNCHANGED <<obj, closedRM>> /\ Accept
+                  ELSE Reject
+TrRawClose == /\ Is("raw_close")
+              /\ IF Cur.o \in DOMAIN raw
+                   THEN raw' = [raw EXCEPT ![Cur.o] = "closed"] /\ UNCHANGED <<obj, closedRM>> /\ Accept
+                   ELSE Reject
 
 Objs(r, k, d, sts) == {o \in DOMAIN obj : obj[o].rm = r /\ obj[o].kind = k /\ obj[o].dir = d /\ obj[o].st \in sts}
 N(S) == Cardinality(S)
@@ -90,40 +115,51 @@ FdOf(S) == N({o \in S : obj[o].fd})
 (* connection has been closed by the code and no goroutine started for an  *)
 (* attempt is left.                                                        *)
 (***************************************************************************)
-TrAudit ==
-  /\ IsEvent("audit")
-  /\ LET r == Cur.rm
-         LC(d) == Objs(r, "conn", d, {"live"})    PC(d) == Objs(r, "conn", d, {"pending"})
-         LS(d) == Objs(r, "stream", d, {"live"})  PS(d) == Objs(r, "stream", d, {"pending"})
-         conns == LC("in") \cup LC("out")         pconns == PC("in") \cup PC("out")
-     IN /\ Between(Cur.cIn, N(LC("in")), N(LC("in")) + N(PC("in")))
-        /\ Between(Cur.cOut, N(LC("out")), N(LC("out")) + N(PC("out")))
-        /\ Between(Cur.sIn, N(LS("in")), N(LS("in")) + N(PS("in")))
-        /\ Between(Cur.sOut, N(LS("out")), N(LS("out")) + N(PS("out")))
-        /\ Between(Cur.fd, FdOf(conns), FdOf(conns) + FdOf(pconns))
-        /\ Cur.tcIn <= N(PC("in")) /\ Cur.tcOut <= N(PC("out")) /\ Cur.tfd <= FdOf(pconns)
-        /\ Cur.tsIn <= N(LS("in")) + N(PS("in")) /\ Cur.tsOut <= N(LS("out")) + N(PS("out"))
-        /\ (Holders(r) = {} => Cur.mem = 0 /\ Cur.tmem = 0 /\ Cur.other = 0)
-        /\ (LS("in") \cup LS("out") \cup PS("in") \cup PS("out") = {} => Cur.tmem = 0)
-        /\ (Cur.final =>
-              /\ \A o \in DOMAIN obj : obj[o].st # "pending"
-              /\ \A o \in DOMAIN raw : (o \in DOMAIN obj /\ obj[o].st = "ended") => raw[o] = "closed"
-              /\ ((\A o \in DOMAIN obj : obj[o].st = "ended") => Cur.gor = 0))
-  /\ UNCHANGED <<obj, raw, closedRM>>
+AuditOK ==
+  LET r == Cur.rm
+      LC(d) == Objs(r, "conn", d, {"live"})
+      PC(d) == Objs(r, "conn", d, {"pending"})
+      LS(d) == Objs(r, "stream", d, {"live"})
+      PS(d) == Objs(r, "stream", d, {"pending"})
+      conns == LC("in") \cup LC("out")
+      pconns == PC("in") \cup PC("out")
+  IN /\ Between(Cur.cIn, N(LC("in")), N(LC("in")) + N(PC("in")))
+     /\ Between(Cur.cOut, N(LC("out")), N(LC("out")) + N(PC("out")))
+     /\ Between(Cur.sIn, N(LS("in")), N(LS("in")) + N(PS("in")))
+     /\ Between(Cur.sOut, N(LS("out")), N(LS("out")) + N(PS("out")))
+     /\ Between(Cur.fd, FdOf(conns), FdOf(conns) + FdOf(pconns))
+     /\ Cur.tcIn <= N(PC("in")) /\ Cur.tcOut <= N(PC("out")) /\ Cur.tfd <= FdOf(pconns)
+     /\ Cur.tsIn <= N(LS("in")) + N(PS("in")) /\ Cur.tsOut <= N(LS("out")) + N(PS("out"))
+     /\ (Holders(r) = {} => Cur.mem = 0 /\ Cur.tmem = 0 /\ Cur.other = 0)
+     /\ (LS("in") \cup LS("out") \cup PS("in") \cup PS("out") = {} => Cur.tmem = 0)
+     /\ (Cur.final =>
+           /\ \A o \in DOMAIN obj : obj[o].st # "pending"
+           /\ \A o \in DOMAIN raw : (o \in DOMAIN obj /\ obj[o].st = "ended") => raw[o] = "closed"
+           /\ ((\A o \in DOMAIN obj : obj[o].st = "ended") => Cur.gor = 0))
+
+TrAudit == /\ Is("audit")
+           /\ IF AuditOK THEN Accept /\ Keep ELSE Reject
 
 \* Swarm.Close returned: no connection, no listener; everything that was charged to it is gone
-TrSwarmClosed == /\ IsEvent("swarm_closed")
-                 /\ Cur.conns = 0 /\ Cur.listeners = 0
-                 /\ obj' = [o \in DOMAIN obj |-> IF obj[o].rm = Cur.rm THEN [obj[o] EXCEPT !.st = "ended"] ELSE obj[o]]
-                 /\ closedRM' = closedRM \cup {Cur.rm}
-                 /\ UNCHANGED raw
+TrSwarmClosed ==
+  /\ Is("swarm_closed")
+  /\ IF Cur.conns = 0 /\ Cur.listeners = 0
+       THEN /\ obj' = [o \in DOMAIN obj |-> IF obj[o].rm = Cur.rm THEN [obj[o] EXCEPT !.st = "ended"] ELSE obj[o]]
+            /\ closedRM' = closedRM \cup {Cur.rm}
+            /\ UNCHANGED raw /\ Accept
+       ELSE Reject
 
-TraceNext == \/ TrReset \/ TrInfo \/ TrBegin \/ TrLive \/ TrEnd \/ TrRawOpen \/ TrRawClose
+TraceNext == \/ TrReset \/ TrSkip \/ TrInfo \/ TrUnknown \/ TrBegin \/ TrLive \/ TrEnd \/ TrRawOpen \/ TrRawClose
              \/ TrAudit \/ TrSwarmClosed
 
 TraceSpec == TraceInit /\ [][TraceNext]_vars
 
-HighWater == TLCSet(1, IF l > TLCGet(1) THEN l ELSE TLCGet(1))
+\* the statement holds on a ledger iff the ledger is never rejected
+NoRejection == bad = <<>>
+
+HighWater == /\ TLCSet(1, IF l > TLCGet(1) THEN l ELSE TLCGet(1))
+             /\ (IF Len(bad) > Len(TLCGet(2)) THEN TLCSet(2, bad) ELSE TRUE)
 TraceAccepted == /\ PrintT(<<"VFHW", ToJson([hw |-> TLCGet(1), len |-> Len(TraceLog)])>>)
+                 /\ PrintT(<<"VFBAD", ToJson([bad |-> TLCGet(2)])>>)
                  /\ TLCGet(1) = Len(TraceLog) + 1
 =============================================================================
